@@ -103,7 +103,7 @@ theorem flush_closed (e : Env) : ∀ (f : Nat) (b : BState) (queue : List Nat) (
     · exact h3 x (hq x (by simp [hx]))
     · exact h2 x hx
 
-theorem addOrphan_data (b : BState) (n : Nat) : (addOrphan b n).data = b.data := by
+theorem addOrphan_data (e : Env) (b : BState) (n : Nat) : (addOrphan e b n).data = b.data := by
   unfold addOrphan
   simp only []
   repeat' split
